@@ -763,6 +763,10 @@ fn run_write(spec: &Spec, npy: bool, precision: usize, mode: &Mode, out: &mut Ou
         // the short-write runs must behave the same
     }
     let full = base.accepted.clone();
+    // a second, different spectrum written fault-free right after a failed write (same thread, same
+    // format): a failed operation must not leave anything behind that shows up in the next one
+    let probe = Spec::from_vals(vec![3], &[7.0, 11.0, 13.5]);
+    let probe_full = exec_write(&probe, npy, precision.min(17), &Schedule::oneshot(), &Faults::none()).accepted;
     let mut judge = |obs: &Obs, desc: &dyn Fn() -> String, out: &mut Outcome| {
         out.evals += 1;
         out.steps += obs.steps;
@@ -819,6 +823,16 @@ fn run_write(spec: &Spec, npy: bool, precision: usize, mode: &Mode, out: &mut Ou
                         "W2_not_a_prefix",
                         format!("W2 {name} accepted bytes are not a prefix"),
                         desc(),
+                    );
+                }
+                let after = exec_write(&probe, npy, precision.min(17), &Schedule::oneshot(), &Faults::none());
+                out.evals += 1;
+                out.count("w3_write_after_failed_write_checked", 1);
+                if !probe_full.is_empty() && after.accepted != probe_full {
+                    out.violate(
+                        "W3_failed_write_leaks_into_next",
+                        format!("W3 {name} the write after a failed write differs from the same write on its own"),
+                        format!("{} ; next write: {} bytes, on its own: {} bytes", desc(), after.accepted.len(), probe_full.len()),
                     );
                 }
             }
